@@ -446,9 +446,48 @@ func prime() {
 	}
 }
 
+var refusedCounter uint64
+
+// primeRefusedSameType: before one struct call in four, two refused calls (nil source, typed nil pointer) that carry an
+// unscoped rule set and a rule set for the measured object's OWN type, naming its own exported fields with rules every
+// value violates; whatever a refused call leaves behind in a pooled validator then shows in the measured call as
+// clauses marked M9PRIMED that nobody asked for
+func (w *walkCall) primeRefusedSameType() {
+	if w.Entry != "struct" || w.Src == nil {
+		return
+	}
+	if atomic.AddUint64(&refusedCounter, 1)%4 != 0 {
+		return
+	}
+	ty := reflect.TypeOf(w.Src)
+	for ty.Kind() == reflect.Ptr {
+		ty = ty.Elem()
+	}
+	if ty.Kind() != reflect.Struct {
+		return
+	}
+	rm := valid.RM{}
+	for i := 0; i < ty.NumField(); i++ {
+		f := ty.Field(i)
+		if f.PkgPath == "" {
+			rm[f.Name] = "required|M9PRIMED,eq=999999999|M9PRIMED"
+		}
+	}
+	if len(rm) == 0 {
+		return
+	}
+	nilPtr := reflect.Zero(reflect.PtrTo(ty)).Interface()
+	quietly(func() { _ = valid.NewVStruct().SetRule(rm).SetRule(rm, nilPtr).Valid(nil) })
+	quietly(func() { _ = valid.NewVStruct().SetRule(rm).SetRule(rm, nilPtr).Valid(nilPtr) })
+	if w.Tag != "" {
+		quietly(func() { _ = valid.NewVStruct(w.Tag).SetRule(rm).SetRule(rm, nilPtr).Valid(nilPtr) })
+	}
+}
+
 // run executes the call on the implementation; returns (err, panicked, panic text)
 func (w *walkCall) run() (err error, panicked bool, ptext string) {
 	prime()
+	w.primeRefusedSameType()
 	defer func() {
 		if p := recover(); p != nil {
 			panicked = true
